@@ -508,10 +508,12 @@ impl Pcap {
         if caplen > self.header.borrow().snaplen {
             if let FileHandle::Writer(writer) = self.file.as_ref() {
                 let mut w = writer.borrow_mut();
-                w.seek(SeekFrom::Start(16))?;
-                w.write_all(&caplen.to_le_bytes())?;
-                w.seek(SeekFrom::End(0))?;
-                self.header.borrow_mut().snaplen = caplen;
+                // (a pipe cannot be rewound: the record is written all the same)
+                if w.seek(SeekFrom::Start(16)).is_ok() {
+                    w.write_all(&caplen.to_le_bytes())?;
+                    w.seek(SeekFrom::End(0))?;
+                    self.header.borrow_mut().snaplen = caplen;
+                }
             }
         }
 
